@@ -138,3 +138,62 @@ Theorem C07_from_converted_field_refuted :
   (exists r, out run = Ok (ORows [r]) /\ get (lit "level") (rdata r) = Some (VStr (lit "INFO"))) /\ nerr run = 1%nat.
 Proof. cbv zeta. split; [eexists; split; vm_compute; reflexivity | vm_compute; reflexivity]. Qed.
 Print Assumptions C07_from_converted_field_refuted.
+
+(** *** parse regex (Regex.v: a subset of the regex crate's syntax with leftmost-first semantics; compared with the
+    binary on generated patterns on every run).  [M t r s e]: the slice [s, e) of [t] is in the language of [r]
+    (anchors read against the whole text). *)
+From AG Require Import Regex Regex_proofs.
+
+(** "binds exactly the named captures": whatever the text, the fields bound are the named groups of the pattern, in
+    group order - no more, no fewer *)
+Theorem C07_regex_binds_the_named_groups : forall pat text l,
+  parse_regex_captures pat text = RxMatch l ->
+  exists r, parse_regex pat = Some r /\ map fst l = regex_named r.
+Proof. exact parse_regex_captures_names. Qed.
+Print Assumptions C07_regex_binds_the_named_groups.
+
+(** "... of the first match": the reported span is a match of the whole pattern, every binding is the text its group
+    matched inside that span (or None for a group that took no part), ... *)
+Theorem C07_regex_bindings_are_the_match : forall pat text l,
+  parse_regex_captures pat text = RxMatch l ->
+  exists r s e c,
+    parse_regex pat = Some r /\
+    map fst l = regex_named r /\
+    search (default_fuel r text) text r = SFound s e c /\
+    M text r s e /\ s <= e /\ e <= length text /\
+    Forall2 (binding_ok text r s e c) (named_only (regex_groups r)) l.
+Proof. exact parse_regex_captures_sound. Qed.
+Print Assumptions C07_regex_bindings_are_the_match.
+
+Theorem C07_regex_capture_inside_the_match : forall f t r s e c idx a b,
+  search f t r = SFound s e c ->
+  cap_lookup c idx = Some (a, b) ->
+  s <= a /\ a <= b /\ b <= e /\ e <= length t /\
+  exists nm sub, has_group r idx nm sub /\ M t sub a b.
+Proof. exact search_capture_inside. Qed.
+Print Assumptions C07_regex_capture_inside_the_match.
+
+(** ... it is the FIRST match: no match of the pattern starts further left, and a line is only dropped when the
+    pattern matches nowhere in it *)
+Theorem C07_regex_first_match_is_leftmost : forall f t r s e c,
+  loops_ok r = true ->
+  search f t r = SFound s e c ->
+  forall p j, p < s -> ~ M t r p j.
+Proof. exact search_leftmost. Qed.
+Print Assumptions C07_regex_first_match_is_leftmost.
+
+Theorem C07_regex_no_match_means_none : forall f t r,
+  loops_ok r = true ->
+  search f t r = SNone ->
+  forall p j, p <= length t -> ~ M t r p j.
+Proof. exact search_none_complete. Qed.
+Print Assumptions C07_regex_no_match_means_none.
+
+(** every pattern the parser accepts satisfies the side condition, and the matcher's fuel never runs out *)
+Theorem C07_regex_parsed_patterns_are_fine : forall pat r, parse_regex pat = Some r -> loops_ok r = true.
+Proof. exact parse_regex_loops_ok. Qed.
+Print Assumptions C07_regex_parsed_patterns_are_fine.
+
+Theorem C07_regex_matcher_terminates : forall pat text, parse_regex_captures pat text <> RxFuel.
+Proof. exact parse_regex_captures_no_fuel. Qed.
+Print Assumptions C07_regex_matcher_terminates.
